@@ -2,3 +2,6 @@
 import LettreVerif.Props.C03
 import LettreVerif.Props.C15
 import LettreVerif.Props.C16
+import LettreVerif.Props.C04
+import LettreVerif.Props.C05
+import LettreVerif.Props.C14
